@@ -12,18 +12,19 @@ import common as C
 import coqrun
 import metam
 
-PRELUDE = ("From GettsimModel Require Import Dag ChkC16 Corr Absint.\nFrom GettsimGen Require Import GenRules GenYaml GenDag GenConfig.\n"
+PRELUDE = ("From GettsimModel Require Import Dag ChkC16 Corr Absint Itv.\nFrom GettsimGen Require Import GenRules GenYaml GenDag GenConfig.\n"
            "Definition PA := params_at yaml_groups internal_params_groups.\n")
 ds = [d for d in metam.dag_dates() if d >= 735599]
 exprs = [f'match find (fun od => Z.eqb (fst od) {d}) dags, PA {d} with Some od, Ok p => let K := a_nodes all_fundefs p dag_data_cols '
          f'(subgraph (snd od) default_targets) [] in String.concat ";" (nodes_with a_nn K) ++ "|" ++ String.concat ";" (nodes_with a_fin K) ++ "|" ++ '
-         f'String.concat ";" (map fst K) | _, _ => "ERR" end' for d in ds]
+         f'String.concat ";" (map fst K) ++ "|" ++ String.concat ";" (flat_map (fun xa => match itv_of (snd xa) with Some i => match hi i with Some h => [fst xa ++ "=" ++ show_q h] | None => [] end | None => [] end) K) | _, _ => "ERR" end' for d in ds]
 r = coqrun.eval_strings("C16_baseline", PRELUDE + "Open Scope Z_scope.\n", exprs, timeout=1800)
 per = {}
 tot_nn = tot_fin = tot = 0
 for d, line in zip(ds, r):
-    nn, fin, ex = [set(x.replace(" ", "").split(";")) - {""} for x in line.split("|")]
-    per[str(d)] = dict(nn=sorted(nn), fin_only=sorted(fin - nn), not_proved=sorted(ex - fin))
+    nn, fin, ex, his = [set(x.replace(" ", "").split(";")) - {""} for x in line.split("|")]
+    per[str(d)] = dict(nn=sorted(nn), fin_only=sorted(fin - nn), not_proved=sorted(ex - fin),
+                       upper=dict(sorted(h.split("=") for h in his)))
     tot_nn += len(nn); tot_fin += len(fin); tot += len(ex)
 out = dict(note="per dumped date >= 2015: nodes of the default targets' graph proved finite and non-negative (nn) / finite only (fin_only) / not proved",
            dates=per)
